@@ -25,6 +25,14 @@ pub struct Statics {
     pub which: Which,
 }
 
+/// A small framework judged by the brute-force oracle, or (C04 only) a framework of 20-300
+/// arguments whose certificates are judged by polynomial necessary conditions.
+#[derive(Clone, Debug, serde::Serialize, serde::Deserialize)]
+pub enum StaticCase {
+    Small(GraphCase),
+    Big(crate::checks::metamorphic::MetaCase),
+}
+
 /// Does the hybrid encoder take its auxiliary-variable branch for some argument?
 pub fn hybrid_aux_branch(g: &AbsGraph, with_multiplicity: bool) -> bool {
     let n = g.n;
@@ -408,7 +416,7 @@ fn yn(b: bool) -> &'static str {
 }
 
 impl Prop for Statics {
-    type Case = GraphCase;
+    type Case = StaticCase;
 
     fn id(&self) -> &'static str {
         match self.which {
@@ -424,7 +432,7 @@ impl Prop for Statics {
         match self.which {
             Which::C01 => format!("{}A case (labelled attack multiset, presentation kind, semantics, encoder) is non-trivial when the framework has >=2 extensions under the semantics, or no stable extension, or >=2 components, or a self-attacker, or sparse ids, or the hybrid encoder takes its auxiliary branch; distinct = distinct such tuples (labelled graphs, not up to isomorphism).", common),
             Which::C02 | Which::C03 => format!("{}A case (graph, presentation kind, semantics, encoder, argument, certificate flag) is non-trivial when the argument is credulously but not skeptically accepted, or the semantics is PR/SST/STG with >=2 extensions, or ST has no extension in a framework of >=2 components, or (DS-PR) an admissible set attacks the argument; distinct = distinct tuples.", common),
-            Which::C04 => format!("{}Only the _with_certificate entry points. A case (graph, presentation kind, problem, encoder, argument) is non-trivial when a certificate was returned and checked and the framework has >=2 components of which >=2 have >=2 complete extensions (the certificate must be completed on untouched components); distinct = distinct tuples.", common),
+            Which::C04 => format!("{}Only the _with_certificate entry points. About 1.6% of the cases are frameworks of 20-300 arguments (generator of C11) whose certificates are judged by polynomial necessary conditions (own arguments once each, present exactly when promised, contains/omits the argument, conflict-free, complete for CO/PR/SST/ID, stable for ST). A case (graph, presentation kind, problem, encoder, argument) is non-trivial when a certificate was returned and checked and the framework has >=2 components of which >=2 have >=2 complete extensions (the certificate must be completed on untouched components); distinct = distinct tuples.", common),
         }
     }
 
@@ -436,13 +444,16 @@ impl Prop for Statics {
         ]
     }
 
-    fn strategy(&self, tier: Tier) -> BoxedStrategy<GraphCase> {
+    fn strategy(&self, tier: Tier) -> BoxedStrategy<StaticCase> {
         let nmax = self.nmax(tier);
         match self.which {
-            Which::C04 => (prop_oneof![3 => gen::graph_multi(nmax), 2 => gen::graph(nmax)], gen::pres(nmax))
-                .prop_map(|(g, pres)| GraphCase { g, pres })
-                .boxed(),
-            _ => gen::graph_case(nmax),
+            Which::C04 => {
+                let small = (prop_oneof![3 => gen::graph_multi(nmax), 2 => gen::graph(nmax)], gen::pres(nmax))
+                    .prop_map(|(g, pres)| StaticCase::Small(GraphCase { g, pres }));
+                let big = crate::checks::metamorphic::meta_strategy(tier).prop_map(StaticCase::Big);
+                prop_oneof![60 => small, 1 => big].boxed()
+            }
+            _ => gen::graph_case(nmax).prop_map(StaticCase::Small).boxed(),
         }
     }
 
@@ -453,18 +464,33 @@ impl Prop for Statics {
         }
     }
 
-    fn enumerated(&self, tier: Tier) -> (Vec<GraphCase>, String) {
+    fn enumerated(&self, tier: Tier) -> (Vec<StaticCase>, String) {
         let max = tier.pick(3, 4);
         let mut v = vec![];
         for n in 0..=max {
             for g in gen::all_graphs(n) {
-                v.push(GraphCase { g, pres: Pres::Direct { offset: 0, order_keys: vec![] } });
+                v.push(StaticCase::Small(GraphCase { g, pres: Pres::Direct { offset: 0, order_keys: vec![] } }));
             }
         }
         (v, format!("all digraphs (self-attacks included) on 0..={} labelled arguments, direct presentation", max))
     }
 
-    fn run(&self, case: &GraphCase, rec: &mut Rec) -> CheckResult {
+    fn run(&self, scase: &StaticCase, rec: &mut Rec) -> CheckResult {
+        let case = match scase {
+            StaticCase::Small(c) => c,
+            StaticCase::Big(mc) => {
+                let (n, checked) = crate::checks::metamorphic::certificates_on_big(mc)?;
+                if checked > 0 {
+                    rec.evals(checked as u64);
+                    rec.count("big-framework-certificates-checked", checked as u64);
+                    rec.class(&format!("big-framework-n-{:03}+", (n / 50) * 50));
+                    if rec.nontrivial(&serde_json::to_string(mc).unwrap()) {
+                        rec.sample(|| json!({"big_framework_arguments": n, "certificates_checked_by_necessary_conditions": checked}));
+                    }
+                }
+                return Ok(());
+            }
+        };
         let g = G::new(case.g.n, &case.g.att_usize());
         let fams = Fams::new(&g);
         let cx = Ctx {
